@@ -315,19 +315,13 @@ pub fn run(ctx: &Ctx, rep: &mut Report) {
                     });
                 }
                 _ => {
-                    let mut d = *rng.pick(&[0u32, 1, 2, 16, 17, 100, 100, 17, 5_000, 1_300_000]);
-                    if d > 100 && !u.advance(0) {
-                        d = 17;
-                    }
+                    let d = *rng.pick(&[0u32, 1, 2, 16, 17, 100, 100, 17, 5_000, 1_300_000, crate::univ::EON]);
                     if d > 100 {
-                        if !u.advance(d) {
-                            d = 17;
-                            u.set_seq(seq + d);
-                        }
+                        u.advance(d);
                     } else {
                         u.set_seq(seq + d);
                     }
-                    rep.step(format!("advance ledger by {} to {}", d, seq + d));
+                    rep.step(format!("advance ledger by {} to {}", if d == crate::univ::EON { "an eon".to_string() } else { d.to_string() }, u.seq()));
                     rep.count("op:advance");
                     rep.count(&format!("advance:{}", d));
                     // expiry / eviction must be reflected by the getters right away
